@@ -399,10 +399,11 @@ Print Assumptions C03_src_wrapper_guard.
    the state.  Structure.__setattr__ is translated from the source on every run into the ORDERED list of its effects
    on (__dict__[key], _none_fields) (Gen/StructNoneFields.v); that list is the documented one -- the marker changes
    AFTER the hand-over to the descriptor chain -- for every class description, both values of the switch, every
-   ordinary attribute name and every value: *)
-Theorem C03_src_setattr_none_fields : forall c u inst n v,
+   ordinary attribute name, every value and every set of attributes the instance holds ([a]: self.__dict__, which the
+   'ignored None' branch consults before it records a marker for a field declared immutable): *)
+Theorem C03_src_setattr_none_fields : forall c u inst a n v,
     ordinary_name n = true ->
-    Structure__setattr_nf (undef_heap c u inst) (PStr n) v = setattr_nf_decision c u inst n v.
+    Structure__setattr_nf (undef_heap c u inst a) (PStr n) v = setattr_nf_decision c u inst a n v.
 Proof. exact generated_setattr_nf. Qed.
 
 (* ... with it an assignment that raises leaves the attributes AND the markers as they were (all-or-nothing on both
@@ -413,8 +414,8 @@ Proof. exact setattr_u_atomic. Qed.
 
 Theorem C03_src_setattr_atomic_on_both_components : forall re_match e c u inst st n v x,
     ordinary_name n = true ->
-    snd (run_decision re_match e c inst st n (Structure__setattr_nf (undef_heap c u inst) (PStr n) v)) = Raised x ->
-    fst (run_decision re_match e c inst st n (Structure__setattr_nf (undef_heap c u inst) (PStr n) v)) = st.
+    snd (run_decision re_match e c inst st n (Structure__setattr_nf (undef_heap c u inst (u_attrs st)) (PStr n) v)) = Raised x ->
+    fst (run_decision re_match e c inst st n (Structure__setattr_nf (undef_heap c u inst (u_attrs st)) (PStr n) v)) = st.
 Proof. exact generated_setattr_u_atomic. Qed.
 
 (* ... any effect list in which nothing precedes the single restoring hand-over is all-or-nothing: *)
@@ -423,8 +424,16 @@ Theorem C03_atomic_shape_is_atomic : forall re_match e evs c inst n st x,
     snd (run_nf re_match e c inst n st evs) = Raised x -> fst (run_nf re_match e c inst n st evs) = st.
 Proof. exact atomic_shape_is_atomic. Qed.
 
-(* ... on the attributes the two-component model is the setattr of the theorems above: *)
+(* ... on the attributes the two-component model is the setattr of the theorems above -- except for the one
+   assignment __setattr__ itself refuses in its 'ignored None' branch (an explicit None for a non-required field
+   declared immutable that holds a value, under _enable_undefined_value): that one raises ValueError and changes
+   nothing: *)
+Theorem C03_marker_blocked_raises : forall re_match e c u inst st n v,
+    marker_blocked c u (u_attrs st) n v = true -> setattr_u re_match e c u inst st n v = (st, Raised ValueError).
+Proof. exact marker_blocked_raises. Qed.
+
 Theorem C03_setattr_u_attrs : forall re_match e c u inst st n v,
+    marker_blocked c u (u_attrs st) n v = false ->
     (u_attrs (fst (setattr_u re_match e c u inst st n v)), snd (setattr_u re_match e c u inst st n v))
     = setattr re_match e (with_undefined c u) inst (u_attrs st) n v.
 Proof. exact setattr_u_attrs. Qed.
@@ -443,6 +452,7 @@ Print Assumptions C03_setattr_none_fields_atomic.
 Print Assumptions C03_src_setattr_atomic_on_both_components.
 Print Assumptions C03_atomic_shape_is_atomic.
 Print Assumptions C03_setattr_u_attrs.
+Print Assumptions C03_marker_blocked_raises.
 Print Assumptions C03_discard_before_handover_not_atomic.
 
 (* non-vacuity: class W (a : Array[Integer], i, j : Integer, a required) with the undefined value enabled, i holding an
@@ -455,7 +465,7 @@ Example C03_none_fields_nonvacuous :
     = ({| u_attrs := [(s2p "a", PList [PNum (NInt 1)]); (s2p "i", PNum (NInt 3))]; u_none := [] |}, Done) /\
   setattr_u no_re [] (w_class HookNone) true true ex_ust (s2p "j") PNone
     = ({| u_attrs := u_attrs ex_ust; u_none := [s2p "j"; s2p "i"] |}, Done) /\
-  Structure__setattr_nf (undef_heap (w_class HookNone) true true) (PStr (s2p "i")) (PNum (NInt 3))
+  Structure__setattr_nf (undef_heap (w_class HookNone) true true (u_attrs ex_ust)) (PStr (s2p "i")) (PNum (NInt 3))
     = Ok [NfHandover (PNum (NInt 3)) true; NfDiscard] /\
   ordinary_name (s2p "i") = true.
 Proof. repeat split; vm_compute; reflexivity. Qed.
